@@ -403,6 +403,10 @@ func checkC12(p *Prog, r *Report) {
 	involved, on every way round (ReadLine itself cannot be interrupted, so
 	this is the "at the latest"). */
 	checkC12InputLoop(p, r, rExit)
+	/* With -one-shell nothing offers a second shell: the help is re-printed
+	on a disconnect only when the flag is off (C04's rule about the event
+	consumer, under this property's clause). */
+	checkEventSwitch(p, r, r.Rule("event-switch", "the event consumer re-prints the callback help on disconnect only without -one-shell, and handles every event type"))
 	checkC12HandlersReturn(p, r, r.Rule("handlers-return", "once the broker's Connect* has returned the shell handlers read no more of the request: Shutdown is not kept waiting by the far end"))
 
 	/* 3. Clean exit. */
